@@ -46,7 +46,7 @@ def main():
     demo_cmd = os.environ.get("SEEDED_DEMO_CMD") or ("cargo test %s --offline --test seeded_demo" % feat)
     meta["demo_cmd"] = demo_cmd
     rc3, o3 = sh(demo_cmd + " 2>&1", cwd=wt)
-    meta["demo_fails_with_change"] = rc3 != 0 and ("test result" in o3 or "Undefined Behavior" in o3 or "panicked" in o3)
+    meta["demo_fails_with_change"] = rc3 != 0 and ("test result" in o3 or "Undefined Behavior" in o3 or "panicked" in o3 or "could not compile" in o3)
     # (git stash is shared between worktrees: use checkout / apply instead)
     sh("git checkout -- src Cargo.toml", cwd=wt)
     rc4, o4 = sh(demo_cmd + " 2>&1", cwd=wt)
